@@ -26,10 +26,25 @@ type Case struct {
 	// (1..3) or after it returned (4)
 	Other *Case `json:"other,omitempty"`
 	Hook  int   `json:"hook,omitempty"`
+	// file-name family: Plug is the plugin's name, i.e. the executable is installed as "notation-<Plug>" (empty: c17p);
+	// Announce is the name the get-plugin-metadata reply announces (stdout kind "meta-announces")
+	Plug     string `json:"plug,omitempty"`
+	Announce string `json:"announce,omitempty"`
+}
+
+// plug is the name of the plugin of a case: its executable file is "notation-" + plug().
+func (c Case) plug() string {
+	if c.Plug == "" {
+		return pluginName
+	}
+	return c.Plug
 }
 
 func (c Case) key() string {
 	k := strings.Join([]string{c.Cmd, c.Exit, c.Stdout, c.Stderr, c.Timing, c.Ctx, c.Req, itoa(c.BigMiB)}, "|")
+	if c.Plug != "" || c.Announce != "" {
+		k += "|plug=" + c.Plug + "|announces=" + c.Announce
+	}
 	if c.Other != nil {
 		k += "||hook=" + itoa(c.Hook) + "||" + c.Other.key()
 	}
@@ -181,6 +196,9 @@ func stdoutKinds(thorough bool) []soKind {
 		{Name: "oversize-garbage", Label: soOversize, Garbage: true, Text: constText("")},
 		// a valid reply, blanks up to beyond the cap, then garbage: as a whole NOT a JSON value, although its first
 		// 64 MiB are one (a host that silently stops reading at the cap would take the prefix for the reply)
+		// file-name family (nameRows): a complete metadata reply announcing Case.Announce; its label is the hand-written
+		// verdict of the row (Case.Plug, Case.Announce), see rowFor
+		{Name: soAnnounces, Label: soInvalidMeta, Field: "name-mismatch", MetaOnly: true, PairOnly: true, Text: honest},
 		{Name: "valid-blanks-beyond-cap-then-garbage", Label: soOversize, Pad: true, Tail: "}xyz", PairOnly: true, Text: honest},
 	}
 	for _, f := range metaFields {
@@ -346,9 +364,128 @@ var seByName = func() map[string]seKind {
 
 func exits(thorough bool) []string {
 	if thorough {
-		return []string{"0", "1", "2", "killed", "3", "127", "255"}
+		return []string{"0", "1", "2", "killed", "3", "126", "127", "255"}
 	}
 	return []string{"0", "1", "2", "killed"}
+}
+
+// The exit-status dimension beyond the members of the full product: statuses that carry a conventional meaning for
+// shells, wrappers and container runtimes (sysexits EX_USAGE 64, "the wrapper itself failed" 125, "found but not
+// executable" 126, "not found" 127, "invalid exit argument" 128, 128+SIGINT/SIGKILL/SIGTERM, out-of-range 255) and
+// deaths by a signal other than SIGKILL ("sig:<NAME>", a generated /bin/sh plugin kills itself after it has written
+// both streams). To the statement every one of them is just "a failing process": the stderr clause applies unchanged.
+var specialExits = []string{"3", "64", "125", "126", "127", "128", "130", "137", "143", "255", "sig:TERM", "sig:INT", "sig:HUP", "sig:PIPE", "sig:SEGV"}
+
+func isSignalExit(e string) bool { return strings.HasPrefix(e, "sig:") }
+
+// ---- file-name family ----
+
+const soAnnounces = "meta-announces"
+
+const (
+	nameEqual    = "equal"    // the announced name IS the plugin's file name (without the notation- prefix): honest
+	nameMismatch = "mismatch" // success forbidden
+	nameLenient  = "lenient"  // equal under a reading the statement does not exclude (letter case on a case-insensitive
+	// file system; the literal file name, prefix included): recorded, never judged
+)
+
+// nameRow is one hand-labelled pair (plugin's file name, announced name). Nothing is computed: every row is written out.
+type nameRow struct {
+	Plug, Announce string
+	Verdict        string
+	Class          string // stable class name of the mismatch (violation key)
+}
+
+// On this (Unix) host the executable of plugin P is the file "notation-P" - that is how CLIManager names, lists and
+// installs plugins; dots and dashes are legal in P and an extension is part of the name.
+var nameRows = []nameRow{
+	{"c17p", "c17p", nameEqual, ""},
+	{"c17p", "c17p.exe", nameMismatch, "exe-extension-added"},
+	{"c17p", "c17", nameMismatch, "announced-is-proper-prefix-of-file-name"},
+	{"c17p", "c17pp", nameMismatch, "file-name-is-proper-prefix-of-announced"},
+	{"c17p", "C17P", nameLenient, "letter-case"},
+	{"c17p", "notation-c17p", nameLenient, "literal-file-name"},
+
+	{"c17p.exe", "c17p.exe", nameEqual, ""},
+	{"c17p.exe", "c17p", nameMismatch, "exe-extension-stripped"},
+	{"c17p.exe", "c17p.exe.exe", nameMismatch, "exe-extension-added"},
+	{"c17p.exe", "notation-c17p", nameMismatch, "exe-extension-stripped-from-literal-file-name"},
+	{"c17p.exe", "c17p.EXE", nameLenient, "letter-case"},
+	{"c17p.exe", "notation-c17p.exe", nameLenient, "literal-file-name"},
+
+	{"c17p.EXE", "c17p.EXE", nameEqual, ""},
+	{"c17p.EXE", "c17p", nameMismatch, "EXE-extension-stripped"},
+	{"c17p.EXE", "c17p.exe", nameLenient, "letter-case"},
+
+	{"c17p.sh", "c17p.sh", nameEqual, ""},
+	{"c17p.sh", "c17p", nameMismatch, "sh-extension-stripped"},
+
+	{"c17p.bat", "c17p.bat", nameEqual, ""},
+	{"c17p.bat", "c17p", nameMismatch, "bat-extension-stripped"},
+
+	{"c17p.example.plugin", "c17p.example.plugin", nameEqual, ""},
+	{"c17p.example.plugin", "c17p.example", nameMismatch, "last-extension-stripped"},
+	{"c17p.example.plugin", "c17p", nameMismatch, "all-extensions-stripped"},
+	{"c17p.example.plugin", "example.plugin", nameMismatch, "first-dot-segment-stripped"},
+
+	{"c17p.v1.0", "c17p.v1.0", nameEqual, ""},
+	{"c17p.v1.0", "c17p.v1", nameMismatch, "last-extension-stripped"},
+	{"c17p.v1.0", "c17p", nameMismatch, "all-extensions-stripped"},
+
+	{"c17-p", "c17-p", nameEqual, ""},
+	{"c17-p", "c17", nameMismatch, "cut-at-dash"},
+	{"c17-p", "p", nameMismatch, "after-last-dash"},
+	{"c17-p", "c17_p", nameMismatch, "dash-replaced"},
+
+	{"notation-c17p", "notation-c17p", nameEqual, ""},
+	{"notation-c17p", "c17p", nameMismatch, "prefix-stripped-twice"},
+	{"notation-c17p", "notation-notation-c17p", nameLenient, "literal-file-name"},
+
+	{"C17P", "C17P", nameEqual, ""},
+	{"C17P", "c17p", nameLenient, "letter-case"},
+}
+
+// plugNames: the distinct plugin names of nameRows, in order of first appearance.
+func plugNames() []string {
+	var out []string
+	seen := map[string]bool{}
+	for _, r := range nameRows {
+		if !seen[r.Plug] {
+			seen[r.Plug] = true
+			out = append(out, r.Plug)
+		}
+	}
+	return out
+}
+
+func rowFor(plug, announce string) (nameRow, bool) {
+	for _, r := range nameRows {
+		if r.Plug == plug && r.Announce == announce {
+			return r, true
+		}
+	}
+	return nameRow{}, false
+}
+
+// kindOf is the stdout kind of a case; for the file-name family its label is that of the hand-labelled row.
+func kindOf(c Case) (soKind, bool) {
+	so, ok := soByName[c.Stdout]
+	if !ok || so.Name != soAnnounces {
+		return so, ok
+	}
+	r, ok := rowFor(c.plug(), c.Announce)
+	if !ok {
+		return so, false
+	}
+	switch r.Verdict {
+	case nameEqual:
+		so.Label, so.Field = soHonest, ""
+	case nameMismatch:
+		so.Label, so.Field = soInvalidMeta, "name-mismatch:"+r.Class
+	case nameLenient:
+		so.Label, so.Field, so.Demoted = soInvalidMeta, "name-mismatch:"+r.Class, true
+	}
+	return so, true
 }
 
 // ---- timing / context ----
